@@ -2,6 +2,7 @@ package main
 
 import (
 	"net"
+	"sync"
 
 	"github.com/refraction-networking/conjure/internal/verifnd"
 	cj "github.com/refraction-networking/conjure/pkg/station/lib"
@@ -159,4 +160,105 @@ func VerifC04Flights() {
 	verifnd.Assert(verifnd.BytesEq(covert.Written, early), "C04.early-data-reaches-the-covert-exactly-once-in-order")
 	verifnd.Assert(verifnd.BytesEq(conn.Written, covert.ReadData), "C04.covert-reply-reaches-the-client")
 	verifnd.Reach("C04.done")
+}
+
+// a client connection whose reads are scheduling points (the moments at which the other
+// client's segments may arrive)
+type verifYieldConn struct{ *cj.VerifScriptConn }
+
+func (c verifYieldConn) Read(p []byte) (int, error) {
+	if c.Rpos < 2 {
+		verifnd.Yield() // the two segments of the first flight
+	}
+	return c.VerifScriptConn.Read(p)
+}
+
+// VerifC04ConcurrentClients: after a probe that every transport has ruled out (the discard
+// path) has come and gone, two registered clients (min transport, distinct secrets, the same
+// phantom) open their connections at the same time, each first flight arriving in two segments
+// cut inside the tag, under every interleaving of the two handlers at their reads: both
+// registrations are found - one client's bytes never end up in the other's classification.
+// Scheduling points: the clients' reads only (what the relay does after a match is C05's subject).
+// sync.Pool keeps items: reuse and fresh allocation are both explored.
+// verif:replay=model
+func VerifC04ConcurrentClients() {
+	logClientIP = false
+	verifnd.LoopBound("crypto/rand.Int", 2)
+	rm := cj.VerifNewManager()
+	var priv [32]byte
+	copy(priv[:], verifnd.Bytes("station-privkey", 32))
+	pt, err := prefix.Default([][32]byte{priv})
+	if err != nil {
+		panic(err)
+	}
+	_ = rm.AddTransport(pb.TransportType_Min, min.Transport{})
+	_ = rm.AddTransport(pb.TransportType_Prefix, pt)
+	secrets := [][]byte{verifnd.Bytes("secret-a", 32), verifnd.Bytes("secret-b", 32)}
+	ida := verifnd.HMACSHA256(secrets[0], []byte("MinTrasportHMACString"))
+	idb := verifnd.HMACSHA256(secrets[1], []byte("MinTrasportHMACString"))
+	verifnd.Assume(!verifnd.BytesEq(ida, idb)) // cryptographic assumption: the two clients' identifiers differ
+	var regs []*cj.DecoyRegistration
+	for i, s := range secrets {
+		r := rm.VerifAdmit(s, pb.TransportType_Min, nil, []string{"192.0.2.99:443", "192.0.2.98:443"}[i])
+		if r == nil {
+			return
+		}
+		if i == 1 {
+			r.PhantomIp = regs[0].PhantomIp
+			_ = rm.TrackRegistration(r)
+			rm.AddRegistration(r)
+		}
+		regs = append(regs, r)
+	}
+	phantom := append(net.IP{}, regs[0].PhantomIp...)
+	var pub [32]byte
+	curve25519.ScalarBaseMult(&pub, &priv)
+	var conns []verifYieldConn
+	for i, s := range secrets {
+		out := &cj.VerifScriptConn{Name: "client-out", DeadlineErr: -1}
+		ct := &min.ClientTransport{}
+		if ct.PrepareKeys(pub, s, nil) != nil {
+			return
+		}
+		if _, err := ct.WrapConn(out); err != nil {
+			return
+		}
+		flight := out.Written
+		if len(flight) < 4 {
+			return
+		}
+		k := len(flight) - 5 // inside the tag
+		c := &cj.VerifScriptConn{Name: []string{"client-a", "client-b"}[i], DeadlineErr: -1}
+		c.Reads = []cj.VerifRead{{N: k}, {N: len(flight) - k}, {Err: cj.VerifErr(0, "read")}}
+		c.Data = [][]byte{flight[:k], flight[k:], nil}
+		conns = append(conns, verifYieldConn{c})
+	}
+	cm := newConnManager(nil)
+	cj.Stat()
+	verifnd.Settle()
+	// the earlier probe: enough bytes for every transport to say "not mine", then the peer goes away
+	probe := &cj.VerifScriptConn{Name: "probe", DeadlineErr: -1}
+	probe.Reads = []cj.VerifRead{{N: 9000}, {Err: cj.VerifErr(0, "read")}}
+	probe.Data = [][]byte{make([]byte, 9000), nil}
+	cm.handleNewTCPConn(rm, probe, phantom)
+	if rm.VerifTimeoutUsed(regs[0]) || rm.VerifTimeoutUsed(regs[1]) {
+		return // (the all-zero probe is not a genuine flight)
+	}
+	// the covert is unreachable: the relay ends at once (what it does otherwise is C05's subject)
+	verifnd.DialReturns(nil, cj.VerifErr(9, "dial"))
+	verifnd.Settle() // the statistics goroutines are parked before the two clients arrive
+	var dummy sync.Mutex
+	verifnd.PreemptOnlyAt(&dummy)
+	var wg sync.WaitGroup
+	for i := range conns {
+		wg.Add(1)
+		go func(i int) {
+			defer wg.Done()
+			cm.handleNewTCPConn(rm, conns[i], phantom)
+		}(i)
+	}
+	verifnd.Quiesce()
+	verifnd.Assert(rm.VerifTimeoutUsed(regs[0]), "C04.concurrent.first-client-recognised")
+	verifnd.Assert(rm.VerifTimeoutUsed(regs[1]), "C04.concurrent.second-client-recognised")
+	verifnd.Reach("C04.concurrent.done")
 }
